@@ -64,13 +64,13 @@ type cprovider struct {
 }
 
 type ccase struct {
-	provs              []*cprovider
-	invIns, invOuts    []int
-	hasInit            bool
-	initIns, initOuts  []int
-	steps              []int
-	invKind, initKind  int // 0 pointer to func, 1 plain func, 2 nil, 3 pointer to a non-func
-	regroup            int // != 0: build the same list through nested Sequences / Append / collection-level annotations
+	provs             []*cprovider
+	invIns, invOuts   []int
+	hasInit           bool
+	initIns, initOuts []int
+	steps             []int
+	invKind, initKind int // 0 pointer to func, 1 plain func, 2 nil, 3 pointer to a non-func
+	regroup           int // != 0: build the same list through nested Sequences / Append / collection-level annotations
 }
 
 func ints(l []int) string {
